@@ -226,6 +226,7 @@ func RunWorker(o *WorkerOpts) *WorkerStats {
 		}
 	}
 	a := newAgg(o)
+	go a.hangWatchdog()
 	iter := uint64(0)
 	for !a.expired() && a.nviol < o.MaxViol {
 		for _, eng := range spec.Engines {
@@ -239,6 +240,31 @@ func RunWorker(o *WorkerOpts) *WorkerStats {
 	}
 	a.finish()
 	return &a.st
+}
+
+// hangWatchdog (real time, outside every simulation): the code under test can spin between two
+// scheduling points (a corrupted list walked for ever), where the simulator has no say and no step
+// budget applies. If no simulated execution has started for hangLimit, the statistics collected so
+// far (including violations already confirmed by re-execution) are written and the process exits
+// with status 3. The orchestrator treats that as infrastructure trouble - never as a verdict - but
+// still reports the confirmed violations of this and the other workers.
+const hangLimit = 75 * time.Second
+
+func (a *agg) hangWatchdog() {
+	last, since := simrt.RunsStarted.Load(), time.Now()
+	for {
+		time.Sleep(time.Second)
+		if n := simrt.RunsStarted.Load(); n != last {
+			last, since = n, time.Now()
+			continue
+		}
+		if time.Since(since) > hangLimit {
+			a.st.InfraErrors = append(a.st.InfraErrors, fmt.Sprintf("worker %d: a simulated execution made no progress for %v of wall-clock time (code spinning between two scheduling points?)", a.opts.Worker, hangLimit))
+			a.finish()
+			fmt.Fprintf(os.Stderr, "worker %d: hang watchdog fired\n", a.opts.Worker)
+			os.Exit(3)
+		}
+	}
 }
 
 // DetRun runs n seeds of a property once each (in order, or reversed) and returns one line per run:
